@@ -246,6 +246,7 @@ int main(int argc, char** argv) {
                 cfgs.push_back(c);
             }
             if (hno % 4 == 0) { cfgs.back().extrap = 3; cfgs.back().maxit = 150; cfgs.back().nr_exp = 4; cfgs.back().ntheta_exp = 5; }
+            if (hno % 8 == 0) { cfgs.back().fmg = 1; cfgs.back().fmg_iters = 1 + (hno / 8) % 2; }   // COMBINED + FMG start-up cycles after a solve that switched the smoother
             const Config& last = cfgs.back();
             auto s = make_solver(last);         // problem 0 for every segment: one object reused
             std::ostringstream hist;
@@ -277,6 +278,19 @@ int main(int argc, char** argv) {
                         obs_reused == obs_fresh ? "ok" : "FAIL a reused solver object reports different results than a freshly constructed one");
             std::printf("PROP reuse-trace history=%s => %s\n", hist.str().c_str(),
                         tr == tr_fresh ? "ok" : "FAIL the last solve of a reused object executes a different operator sequence than a fresh object");
+            if (last.fmg) {
+                // C09: the FMG starting approximation (solve() with maxIterations = 0) is a function of the problem data only:
+                // re-requested on the object with this history it must equal, bit for bit, the start-up of a fresh object
+                s->maxIterations(0); s->solve();
+                Config c0 = last; c0.maxit = 0;
+                auto f0 = make_solver(c0); apply_options(*f0, c0); f0->setup(); f0->solve();
+                bool same = s->solution().size() == f0->solution().size();
+                double worst = 0;
+                for (int i = 0; same && i < s->solution().size(); i++) worst = std::max(worst, std::fabs(s->solution()[i] - f0->solution()[i]));
+                same = same && worst == 0.0;
+                std::printf("PROP fmg-start-after-history history=%s maxdiff=%.3e => %s\n", hist.str().c_str(), worst,
+                            same ? "ok" : "FAIL the FMG starting approximation depends on the earlier solves of the object");
+            }
         }
         return 0;
     }
